@@ -45,6 +45,8 @@ pub fn evolve(prev: &World, version: usize, rng: &mut Rng, em: Emphasis) -> Worl
         // new manifest number / thisUpdate relation
         let (dn, dt): (i64, i64) = match em {
             Emphasis::Ordering => *rng.pick(&[(1, 120), (1, 120), (0, 120), (1, 0), (-1, 120), (1, -120), (-2, -240), (5, 600), (0, 0)]),
+            // mostly a plainly newer version; now and then one whose number or time does not advance
+            Emphasis::Incomplete => *rng.pick(&[(1, 120), (1, 120), (1, 120), (1, 120), (1, 0), (0, 120), (2, 60)]),
             _ => (1, 120),
         };
         let cc = &mut w.cas[c];
